@@ -673,6 +673,60 @@ def _hist_sig(txt):
             return sig
     return "other"
 
+
+
+def c11_history(case):
+    """translation after a history vs a freshly imported package set to the documented current table"""
+    import importlib
+    import sys
+    from . import hist
+    reset_table()
+    api = _api()
+    st = hist.State(_presets0())
+    try:
+        for op in case["ops"]:
+            hist.apply_op(api, st, op)
+        d1 = _dec(case["selfies"])
+        try:
+            e1 = ("ok", sf.encoder(case["smiles"], strict=False))
+        except sf.EncoderError:
+            e1 = ("EncoderError",)
+        # fresh package
+        saved = {k: v for k, v in sys.modules.items() if k == "selfies" or k.startswith("selfies.")}
+        for k in saved:
+            del sys.modules[k]
+        try:
+            fresh = importlib.import_module("selfies")
+            try:
+                e2 = ("ok", fresh.encoder(case["smiles"], strict=False))
+            except fresh.EncoderError:
+                e2 = ("EncoderError",)
+            fresh.set_semantic_constraints(dict(st.cur))
+            try:
+                with warnings.catch_warnings():
+                    warnings.simplefilter("ignore")
+                    d2 = ("ok", fresh.decoder(case["selfies"]))
+            except fresh.DecoderError:
+                d2 = ("DecoderError",)
+        finally:
+            for k in [k for k in sys.modules if k == "selfies" or k.startswith("selfies.")]:
+                del sys.modules[k]
+            sys.modules.update(saved)
+        names = [_opname(o) for o in case["ops"]]
+        if d1 != d2:
+            return bad("C11:decoder-depends-on-history", "after %s decoder(%r) -> %s, a fresh interpreter with table %s gives %s"
+                       % (names, case["selfies"], d1, _short(st.cur), d2))
+        if e1 != e2:
+            return bad("C11:encoder-depends-on-history", "after %s encoder(%r, strict=False) -> %s, a fresh interpreter gives %s"
+                       % (names, case["smiles"], e1, e2))
+        return ok()
+    finally:
+        try:
+            sf.get_semantic_robust_alphabet.cache_clear()
+        except Exception:  # noqa
+            pass
+        reset_table()
+
 # ---------------------------------------------------------------------------
 
 KINDS = {
@@ -689,6 +743,7 @@ KINDS = {
     "attr_decoder": c17_decoder,
     "attr_encoder": c17_encoder,
     "config_history": c12_history,
+    "pure_history": c11_history,
     "state_fn": lemma_state_fn,
     "ring_step": lemma_ring_step,
 }
